@@ -306,9 +306,9 @@ class VariableElimination(Inference):
         if isinstance(self.model, BayesianNetwork) and (virtual_evidence is not None):
             # The engine works on an augmented copy for this call only.
             orig_model = self.model
-            self._virtual_evidence(virtual_evidence)
-            virt_evidence = {"__" + str(cpd.variables[0]): 0 for cpd in virtual_evidence}
             try:
+                self._virtual_evidence(virtual_evidence)
+                virt_evidence = {"__" + str(cpd.variables[0]): 0 for cpd in virtual_evidence}
                 return self.query(
                     variables=variables,
                     evidence={**evidence, **virt_evidence},
@@ -561,9 +561,9 @@ class VariableElimination(Inference):
         if isinstance(self.model, BayesianNetwork) and (virtual_evidence is not None):
             # The engine works on an augmented copy for this call only.
             orig_model = self.model
-            self._virtual_evidence(virtual_evidence)
-            virt_evidence = {"__" + str(cpd.variables[0]): 0 for cpd in virtual_evidence}
             try:
+                self._virtual_evidence(virtual_evidence)
+                virt_evidence = {"__" + str(cpd.variables[0]): 0 for cpd in virtual_evidence}
                 return self.map_query(
                     variables=variables,
                     evidence={**evidence, **virt_evidence},
@@ -1126,9 +1126,9 @@ class BeliefPropagation(Inference):
         if isinstance(self.model, BayesianNetwork) and (virtual_evidence is not None):
             # The engine works on an augmented copy for this call only.
             orig_model = self.model
-            self._virtual_evidence(virtual_evidence)
-            virt_evidence = {"__" + str(cpd.variables[0]): 0 for cpd in virtual_evidence}
             try:
+                self._virtual_evidence(virtual_evidence)
+                virt_evidence = {"__" + str(cpd.variables[0]): 0 for cpd in virtual_evidence}
                 return self.query(
                     variables=variables,
                     evidence={**evidence, **virt_evidence},
@@ -1230,9 +1230,9 @@ class BeliefPropagation(Inference):
         if isinstance(self.model, BayesianNetwork) and (virtual_evidence is not None):
             # The engine works on an augmented copy for this call only.
             orig_model = self.model
-            self._virtual_evidence(virtual_evidence)
-            virt_evidence = {"__" + str(cpd.variables[0]): 0 for cpd in virtual_evidence}
             try:
+                self._virtual_evidence(virtual_evidence)
+                virt_evidence = {"__" + str(cpd.variables[0]): 0 for cpd in virtual_evidence}
                 return self.map_query(
                     variables=variables,
                     evidence={**evidence, **virt_evidence},
